@@ -197,7 +197,7 @@ func ruleC15_3(c *Ctx) {
 			// freshly dialed
 			if ex, ok := strip(v).(*ssa.Extract); ok {
 				if _, isDial := p.isCallTo(ex.Tuple, dial); isDial {
-					okE := guardHas(guardsAt(r.Block()), func(g Guard) bool {
+					okE := guardHas(guardsOf(r), func(g Guard) bool {
 						x, op, y, ok := cmpGuard(g)
 						e2, isEx := x.(*ssa.Extract)
 						return ok && op == token.EQL && isNilConst(y) && isEx && e2.Tuple == ex.Tuple
@@ -208,7 +208,7 @@ func ruleC15_3(c *Ctx) {
 			return
 		}
 		nPooled++
-		gs := guardsAt(r.Block())
+		gs := guardsOf(r)
 		okO := guardHas(gs, func(g Guard) bool {
 			call, ok := g.Cond.(*ssa.Call)
 			if !ok || !g.Truth || !call.Call.IsInvoke() || call.Call.Method.Name() != "IsOpened" {
@@ -280,7 +280,7 @@ func ruleC15_3(c *Ctx) {
 	okClosed := false
 	allInstrs(get, func(in ssa.Instruction) {
 		if r, ok := in.(*ssa.Return); ok && isNilConst(results(r)[0]) {
-			if guardHas(guardsAt(r.Block()), func(g Guard) bool { _, is := fieldLoad(g.Cond, closedF); return is && g.Truth }) {
+			if guardHas(guardsOf(r), func(g Guard) bool { _, is := fieldLoad(g.Cond, closedF); return is && g.Truth }) {
 				okClosed = true
 			}
 		}
@@ -319,7 +319,7 @@ func ruleC15_4(c *Ctx) {
 		}
 		n++
 		label := "end of function"
-		if gs := guardsAt(r.Block()); len(gs) > 0 {
+		if gs := guardsOf(r); len(gs) > 0 {
 			label = "under " + gs[0].String()
 		}
 		name := "OnMoved: exit " + label
@@ -327,7 +327,7 @@ func ruleC15_4(c *Ctx) {
 			name = "OnMoved: exit " + label + " drops the request"
 		}
 		c.check(handled, name, c.at(r), "the fragment was re-sent or its request completed with an error",
-			"OnMoved returns here after only logging: the redirected fragment is neither re-sent nor failed, so the request is never answered (redirect to a node the proxy does not know, or that cannot be dialled)", withGuards(guardsAt(r.Block())))
+			"OnMoved returns here after only logging: the redirected fragment is neither re-sent nor failed, so the request is never answered (redirect to a node the proxy does not know, or that cannot be dialled)", withGuards(guardsOf(r)))
 	})
 }
 
@@ -357,7 +357,7 @@ func ruleC15_5(c *Ctx) {
 		if !ok {
 			return
 		}
-		onErr := guardHas(guardsAt(r.Block()), func(g Guard) bool {
+		onErr := guardHas(guardsOf(r), func(g Guard) bool {
 			x, op, y, ok := cmpGuard(g)
 			return ok && op == token.NEQ && isNilConst(y) && types.Identical(x.Type(), types.Universe.Lookup("error").Type()) && isErrOf(x)
 		})
@@ -401,7 +401,7 @@ func ruleC16_1(c *Ctx) {
 	doneF := p.Field(pkgCore, "Msg", "Done")
 	rspF := p.Field(pkgCore, "Msg", "RspBody")
 	var errStore *ssa.Store
-	allInstrs(mt, func(in ssa.Instruction) {
+	p.allInstrsDeep(mt, func(in ssa.Instruction) {
 		if st, ok := in.(*ssa.Store); ok {
 			if fa, ok := st.Addr.(*ssa.FieldAddr); ok && fieldVar(fa.X.Type(), fa.Field) == msgErr {
 				errStore = st
@@ -415,7 +415,7 @@ func ruleC16_1(c *Ctx) {
 	msgBase := errStore.Addr.(*ssa.FieldAddr).X
 	for _, want := range []*types.Var{doneF, rspF} {
 		found := false
-		allInstrs(mt, func(in ssa.Instruction) {
+		p.allInstrsDeep(mt, func(in ssa.Instruction) {
 			if st, ok := in.(*ssa.Store); ok {
 				if fa, ok := st.Addr.(*ssa.FieldAddr); ok && fieldVar(fa.X.Type(), fa.Field) == want && expr(fa.X) == expr(msgBase) {
 					found = true
@@ -488,7 +488,7 @@ func ruleC16_3(c *Ctx) {
 		return
 	}
 	n := 0
-	allInstrs(mt, func(in ssa.Instruction) {
+	p.allInstrsDeep(mt, func(in ssa.Instruction) {
 		st, ok := in.(*ssa.Store)
 		if !ok {
 			return
@@ -502,7 +502,7 @@ func ruleC16_3(c *Ctx) {
 			return
 		}
 		n++
-		gs := guardsAt(st.Block())
+		gs := guardsOf(st)
 		okD := guardHas(gs, func(g Guard) bool {
 			base, is := fieldLoad(g.Cond, doneF)
 			if !is || g.Truth {
@@ -546,15 +546,15 @@ func ruleC16_4(c *Ctx) {
 		if s.Fn.Synthetic != "" {
 			continue
 		}
-		okS := outermost(s.Fn) == enqIn && s.Call != nil && strip(s.Call.Args[0]) == ssa.Value(enqIn.Params[1])
-		c.check(okS, "pushToTimeoutQueue in "+shortFn(outermost(s.Fn)), c.at(s.Instr), "a fragment gets its deadline when (and only when) it goes in flight",
+		okS := homeFn(s.Fn) == enqIn && s.Call != nil && strip(s.Call.Args[0]) == ssa.Value(enqIn.Params[1])
+		c.check(okS, "pushToTimeoutQueue in "+shortFn(homeFn(s.Fn)), c.at(s.Instr), "a fragment gets its deadline when (and only when) it goes in flight",
 			"a deadline is registered outside enqueueInFrag (or for another fragment): fragments time out that were never sent, or sent ones never do")
 	}
 	for _, s := range p.SitesOf(del) {
 		if s.Fn.Synthetic != "" {
 			continue
 		}
-		encl := outermost(s.Fn)
+		encl := homeFn(s.Fn)
 		c.check(encl == deqIn || encl == mt, "deleteFromTimeoutQueue in "+shortFn(encl), c.at(s.Instr), "on dequeue and on timeout", "deadlines are deleted from an unexpected place")
 	}
 	// DequeueInFrag: the fragment popped is the one whose deadline is deleted, and it is the one returned
